@@ -6,7 +6,13 @@ import refasm
 from common import assemble, main_protocol
 
 
+USER_MAP_PROGRAM = ".map identifier=9 bank_range=0x00,0x3f addr_range=0x0000,0xffff mask=0x10000\n*=0x018000\n.db 1, 2, 3\n"
+
+
 def check(case):
+    if case.get("after_user_map"):
+        # an EARLIER assembly in this process declared its own `.map`: the mapping in force for the next program is still the default one
+        assemble(USER_MAP_PROGRAM)
     rng = random.Random(case["seed"])
     mapping = case["mapping"]
     prog = refasm.gen_program(rng, mapping, size=case.get("size", 8))
@@ -34,7 +40,7 @@ def run(tier, seed):
     samples = []
     nontrivial = 0
     for i in range(n):
-        case = {"seed": seed * 100003 + i, "mapping": "low_rom" if i % 3 else "high_rom", "size": 6 + (i % 7)}
+        case = {"seed": seed * 100003 + i, "mapping": "low_rom" if i % 3 else "high_rom", "size": 6 + (i % 7), "after_user_map": i % 10 == 5}
         f, src = check(case)
         if src.count("\n") > 4:
             nontrivial += 1
@@ -44,7 +50,7 @@ def run(tier, seed):
             failures.append({"ident": "bounded/blocks-vs-reference", "script": "b_C03.py", "payload": case, "observed": f + " :: " + src[:300].replace("\n", " / ")})
     return {"evaluations": n, "distinct_nontrivial": nontrivial,
             "rule": "seeded random program trees (data directives, implied/immediate/absolute instructions, labels incl. re-used names in inner scopes, "
-                    "blocks, .for, .if/else, *= and @= moves to ROM and RAM, starts at bank-window edges so blocks cross banks) under LoROM and HiROM; "
+                    "blocks, .for, .if/else, *= and @= moves to ROM and RAM, starts at bank-window edges so blocks cross banks) under LoROM and HiROM, every tenth one after another program that declared its own `.map`; "
                     "writer blocks compared with the independent reference model; non-trivial = more than 4 source lines",
             "samples": samples, "failures": failures}
 
